@@ -1163,6 +1163,13 @@ Octagonal_Shape<T>::concatenate_assign(const Octagonal_Shape& y) {
     return;
   }
 
+  // If `y' is marked empty, so is the concatenation.
+  if (y.marked_empty()) {
+    add_space_dimensions_and_embed(y.space_dim);
+    set_empty();
+    return;
+  }
+
   // This is the old number of rows in the matrix. It is equal to
   // the first index of columns to change.
   dimension_type old_num_rows = matrix.num_rows();
